@@ -72,17 +72,13 @@ pub fn extract_field_content(input: &str, tag: &str) -> Option<(String, usize)> 
 
 /// Find the boundary of the next field
 fn find_next_field_boundary(input: &str) -> Option<usize> {
-    let mut chars = input.char_indices();
-
-    while let Some((i, ch)) = chars.next() {
+    for (i, ch) in input.char_indices() {
         if ch == '\n' {
-            // Check if next character starts a field
-            if let Some((_, ':')) = chars.next() {
-                // This might be a field marker, verify the pattern
-                let rest = &input[i + 1..];
-                if is_field_marker(rest) {
-                    return Some(i);
-                }
+            // Check if the next line starts a field (look ahead without consuming:
+            // the character after this newline may itself be a newline that starts a field)
+            let rest = &input[i + 1..];
+            if rest.starts_with(':') && is_field_marker(rest) {
+                return Some(i);
             }
         }
     }
